@@ -150,6 +150,9 @@ def decode_response(t, j, rec, V, ack=False):
 def run_case(rec, case):
     rng = gen.mkrng('c19', case['seed'], case['i'])
     srv = rng.choice(['T', 'A'])
+    if srv == 'A' and case.get('aio'):
+        srv = case['aio']    # asyncio server behind the aiohttp adapter
+        rec.count('histories_on_aiohttp_adapter')
     ae = rng.choice(AE)
     comp = rng.random() < 0.8
     j = rng.choice([None, None, '0', '7', '1000000000'])
@@ -249,6 +252,9 @@ def run_sequence(rec, case):
     in a later one."""
     rng = gen.mkrng('c19seq', case['seed'], case['i'])
     srv = rng.choice(['T', 'A'])
+    if srv == 'A' and case.get('aio'):
+        srv = case['aio']    # asyncio server behind the aiohttp adapter
+        rec.count('histories_on_aiohttp_adapter')
     comp = rng.random() < 0.85
     thr = rng.choice([0, 0, 2, 60, 200, 1024])
     cookie = rng.choice([None, None, 'io'])
@@ -351,6 +357,8 @@ def run_shard(spec):
     rec = Rec()
     cases = [{'seed': spec['seed'], 'i': spec['shard'] * 1000000 + k}
              for k in range(spec['n'])]
+    for c in cases[::2]:
+        c['aio'] = 'H'
     # one in six cases is a sequence of responses from one server instance
     cases += [{'seed': spec['seed'], 'i': spec['shard'] * 1000000 + k,
                'seq': True} for k in range(spec['n'] // 6)]
